@@ -220,7 +220,7 @@ fn raw_block() -> impl Strategy<Value = RawBlock> {
         2 => proptest::collection::vec(proptest::collection::vec(0u8..TEXT_WORDS.len() as u8, 1..=5), 1..=3).prop_map(RawBlock::Text),
         2 => (0u8..6).prop_map(RawBlock::Mode),
         2 => (0u8..META_KEYS.len() as u8, 0u8..META_VALUES.len() as u8).prop_map(|(k, v)| RawBlock::Meta(k, v)),
-        1 => (0u8..8).prop_map(RawBlock::StdMeta),
+        1 => (0u8..10).prop_map(RawBlock::StdMeta),
     ]
 }
 
@@ -248,7 +248,7 @@ pub fn raw_recipe(ext: Option<bool>) -> impl Strategy<Value = RawRecipe> {
     (
         ext_s,
         proptest::option::weighted(0.3, proptest::collection::vec((0u8..META_KEYS.len() as u8, raw_yaml()), 0..4)),
-        proptest::collection::vec(0u8..8, 0..3),
+        proptest::collection::vec(0u8..10, 0..3),
         proptest::collection::vec(raw_block(), 1..=10),
         proptest::collection::vec(any::<u16>(), 0..120),
     )
@@ -270,7 +270,9 @@ fn num_of(r: &RawNum) -> NumM {
 
 /// standard metadata entries with valid values: (key, `>>` value text, yaml value)
 pub fn std_meta(i: u8) -> (&'static str, &'static str, YamlM) {
-    match i % 8 {
+    match i % 10 {
+        8 => ("servings", "6|2|4", YamlM::List(vec![YamlM::Int(6), YamlM::Int(2), YamlM::Int(4)])),
+        9 => ("servings", "12 small|3 big", YamlM::List(vec![YamlM::Str("12 small".into()), YamlM::Str("3 big".into())])),
         0 => ("servings", "4", YamlM::Int(4)),
         1 => ("servings", "2|4|8", YamlM::List(vec![YamlM::Int(2), YamlM::Int(4), YamlM::Int(8)])),
         2 => ("time", "1h 30min", YamlM::Str("1h 30min".into())),
